@@ -147,6 +147,26 @@ def run(ctx: core.Ctx):
                          note="compiled kernel must return what its source returns under the interpreter")
                 return
 
+    # boundary lengths 2, 3, 4 in batches of 24 pixels through the gufuncs: the index arithmetic m-1, m-2, m-3 of the solver wraps
+    # around at these lengths, and a batch re-uses freed scratch memory from pixel to pixel, so a cell that the source reads before
+    # writing it (zero-initialised in the interpreter's NumPy) shows as a difference between compiled and interpreted results
+    for n in (2, 3, 4):
+        base = np.array(gen.series(rng, n, "ndvi"), dtype="float64")
+        batch = np.stack([base] * 12 + [np.array(gen.series(rng, n, "walk"), dtype="float64") for _ in range(12)])
+        lam, p, nd = 10.0, 0.9, -3000.0
+        sr = np.arange(-1, 1.5, 0.5)
+        for name, args, two in (("ws2dgu", (lam, nd), False), ("ws2dpgu", (lam, nd, p), False), ("ws2doptv", (nd, sr), True), ("ws2doptvp", (nd, p, sr), True)):
+            got = getattr(ops, name)(batch, *args)
+            gb = np.asarray(got[0] if two else got)
+            for k in range(batch.shape[0]):
+                def it(k=k, name=name, args=args, two=two):
+                    out, lo = np.zeros(n), np.zeros(1)
+                    I[name](batch[k], *args, *((out, lo) if two else (out,)))
+                    return out
+                cmp(name + " (batch, boundary length)", dict(y=batch[k].tolist(), n=n, pixel=k, args=str(args)[:60]), lambda k=k: gb[k], it, kind="band")
+        wts = np.ones(n)
+        for rep in range(24):
+            cmp("ws2d (repeated, boundary length)", dict(y=base.tolist(), n=n, call=rep), lambda: ws2d(base, lam, wts), lambda: I["ws2d"](base, lam, wts))
     N = ctx.budget(6, 40)
     for _ in range(N):
         n = rng.choice([5, 8, 12, 24, 36])
